@@ -230,3 +230,127 @@ Proof.
   destruct K as [disc' [vs' [fd [fi [Hm [_ [_ [_ [_ E]]]]]]]]]. rewrite Hi in E. inversion E; subst.
   apply mapM_Forall2 in Hm. clear -Hm. induction Hm; constructor; [eapply data_from_variant_decl; eassumption | assumption].
 Qed.
+
+(* ---- item level: skip_inner / incomparable given as their own attribute on the item ---- *)
+Definition single_meta (a : item_attr) : list meta1 :=
+  match a with
+  | IADw (DAList elems semi) => match comma_view elems semi with Some [m] => [m] | _ => [] end
+  | _ => []
+  end.
+Definition singles (attrs : list item_attr) : list meta1 := flat_map single_meta attrs.
+
+Definition iacc_decl (seen : list item_attr) (st : iacc) : Prop :=
+  ia_skips st = filter (fun m => meta1_is m "skip_inner") (singles seen) /\
+  ia_incs st = filter (fun m => negb (meta1_is m "skip_inner") && meta1_is m "incomparable") (singles seen).
+
+Lemma item_add_attr_decl c e u seen st a st' :
+  iacc_decl seen st -> item_add_attr c e u st a = Ok st' -> iacc_decl (seen ++ [a]) st'.
+Proof.
+  intros [Hs Hi] H. unfold iacc_decl, singles. rewrite flat_map_app, !filter_app. cbn [flat_map]. rewrite app_nil_r.
+  fold (singles seen). rewrite <- Hs, <- Hi.
+  destruct a as [[ts|elems semi]|r|p ts]; cbn [item_add_attr single_meta] in *; try discriminate;
+    try (inversion H; subst; cbn [filter]; rewrite !app_nil_r; split; reflexivity).
+  destruct (comma_view elems semi) as [[|m [|m2 l]]|] eqn:E; try discriminate.
+  - destruct (meta1_is m "skip_inner") eqn:E1.
+    + destruct e; [discriminate|]. inversion H; subst; cbn [ia_skips ia_incs filter]. rewrite E1. cbn [negb andb]. rewrite app_nil_r. split; reflexivity.
+    + destruct (meta1_is m "incomparable") eqn:E2.
+      * inversion H; subst; cbn [ia_skips ia_incs filter]. rewrite E1, E2. cbn [negb andb]. rewrite app_nil_r. split; reflexivity.
+      * cbn [filter]. rewrite E1, E2. cbn [negb andb]. rewrite !app_nil_r.
+        destruct (meta1_is m "crate"); [inversion H; subst; split; reflexivity|].
+        inv_bind H. inversion H; subst; cbn [ia_skips ia_incs]. split; reflexivity.
+  - inv_bind H. inversion H; subst; cbn [ia_skips ia_incs filter]. rewrite !app_nil_r. split; reflexivity.
+  - inv_bind H. inversion H; subst; cbn [ia_skips ia_incs filter]. rewrite !app_nil_r. split; reflexivity.
+Qed.
+
+Lemma foldM_item_decl c e u attrs : forall seen st st',
+  iacc_decl seen st -> foldM (item_add_attr c e u) attrs st = Ok st' -> iacc_decl (seen ++ attrs) st'.
+Proof.
+  induction attrs as [|a attrs IH]; cbn [foldM]; intros seen st st' HP H.
+  - inversion H; subst. rewrite app_nil_r. exact HP.
+  - inv_bind H. replace (seen ++ a :: attrs) with ((seen ++ [a]) ++ attrs) by (rewrite <- app_assoc; reflexivity).
+    eapply IH; [eapply item_add_attr_decl; eassumption | exact H].
+Qed.
+
+Lemma fold_skip_decl c dws ms : forall s s',
+  foldM (fun s m => skip_add_attribute c dws None m s) ms s = Ok s' ->
+  forall t, trait_skipped s' t = trait_skipped s t || existsb (fun m => meta_skips c m t) ms.
+Proof.
+  induction ms as [|m ms IH]; cbn [foldM]; intros s s' H t.
+  - inversion H; subst. cbn. rewrite orb_false_r. reflexivity.
+  - inv_bind H. rewrite (IH _ _ H t), (skip_add_attribute_decl _ _ _ _ _ _ Hb t). cbn [existsb]. rewrite orb_assoc. reflexivity.
+Qed.
+
+Lemma fold_inc_decl dws ms : forall b b',
+  foldM (fun i m => incomparable_add dws m i) ms b = Ok b' -> b' = b || negb (match ms with [] => true | _ => false end).
+Proof.
+  induction ms as [|m ms IH]; cbn [foldM]; intros b b' H.
+  - inversion H; subst. cbn. rewrite orb_false_r. reflexivity.
+  - inv_bind H. rewrite (IH _ _ H). rewrite (incomparable_add_bool _ _ _ _ Hb). cbn. destruct ms; rewrite ?orb_true_r; reflexivity.
+Qed.
+
+Lemma existsb_filter {A} (p q : A -> bool) l : existsb q (filter p l) = existsb (fun x => p x && q x) l.
+Proof. induction l as [|x l IH]; cbn; [reflexivity|]. destruct (p x); cbn; rewrite IH; reflexivity. Qed.
+
+Lemma inc_filter_nonempty l :
+  negb (match filter (fun m => negb (meta1_is m "skip_inner") && meta1_is m "incomparable") l with [] => true | _ => false end) =
+  existsb (fun m => meta1_is m "incomparable") l.
+Proof.
+  induction l as [|m ms IH]; [reflexivity|]. cbn [filter existsb].
+  destruct (meta1_is m "skip_inner") eqn:E1; cbn [negb andb].
+  - rewrite (meta1_is_excl m "skip_inner" "incomparable" E1) by discriminate. cbn [orb]. exact IH.
+  - destruct (meta1_is m "incomparable"); cbn [orb]; [reflexivity | exact IH].
+Qed.
+
+Theorem item_attrs_declarative c e u attrs ia :
+  item_attr_from_attrs c e u attrs = Ok ia ->
+  it_incomparable ia = existsb (fun m => meta1_is m "incomparable") (singles attrs) /\
+  forall t, trait_skipped (it_skip_inner ia) t = existsb (fun m => meta1_is m "skip_inner" && meta_skips c m t) (singles attrs).
+Proof.
+  unfold item_attr_from_attrs. intros H. inv_bind H.
+  assert (H0 : iacc_decl [] (mkIacc [] [] [])) by (split; reflexivity).
+  destruct (foldM_item_decl c e u attrs [] _ _ H0 Hb) as [Hs Hi]. cbn [app] in Hs, Hi.
+  destruct (ia_dws a) eqn:Ed; [discriminate|].
+  destruct (existsb _ (merge_dws (d :: l))); [discriminate|]. destruct (has_cross_dup _); [discriminate|].
+  inv_bind H. inv_bind H. inversion H; subst; cbn [it_incomparable it_skip_inner]. split.
+  - rewrite (fold_inc_decl _ _ _ _ Hb1). cbn [orb]. rewrite Hi. apply inc_filter_nonempty.
+  - intros t. rewrite (fold_skip_decl _ _ _ _ _ Hb0 t). cbn [trait_skipped orb]. rewrite Hs. apply existsb_filter.
+Qed.
+
+Lemma data_from_struct_markers c dws sk inc id sh fs d :
+  data_from_struct c dws sk inc id sh fs = Ok d ->
+  d_skip_inner d = sk /\ d_incomparable d = inc /\
+  (sh = RUnit \/ Forall2 (fun rf f => forall t, trait_skipped (f_skip f) t =
+                                       existsb (fun m => meta1_is m "skip" && meta_skips c m t) (metas_of (rf_attrs rf))) fs (d_fields d)).
+Proof.
+  unfold data_from_struct. intros H. destruct sh.
+  - destruct (match fs with [] => negb inc | _ => false end); [discriminate|]. inv_bind H. inversion H; subst; cbn.
+    repeat split. right. eapply fields_from_decl; eassumption.
+  - destruct (match fs with [] => negb inc | _ => false end); [discriminate|]. inv_bind H. inversion H; subst; cbn.
+    repeat split. right. eapply fields_from_decl; eassumption.
+  - destruct inc; [|discriminate]. inversion H; subst; cbn. repeat split. left. reflexivity.
+Qed.
+
+(* an accepted struct: its item-level markers and the markers of its fields, as written *)
+Theorem accepted_struct_declarative c r i sh fs d :
+  from_input c r = Ok i -> ri_kind r = KStruct sh fs -> in_item i = IItem d ->
+  d_incomparable d = existsb (fun m => meta1_is m "incomparable") (singles (ri_attrs r)) /\
+  (forall t, trait_skipped (d_skip_inner d) t =
+             existsb (fun m => meta1_is m "skip_inner" && meta_skips c m t) (singles (ri_attrs r))) /\
+  (sh = RUnit \/ Forall2 (fun rf f => forall t, trait_skipped (f_skip f) t =
+                                       existsb (fun m => meta1_is m "skip" && meta_skips c m t) (metas_of (rf_attrs rf))) fs (d_fields d)).
+Proof.
+  intros H Hk Hi. destruct (from_input_inv c r i H) as [ia [Ha [_ [_ K]]]]. rewrite Hk in K.
+  destruct K as [d' [Hd E]]. rewrite Hi in E. inversion E; subst d'.
+  destruct (item_attrs_declarative _ _ _ _ _ Ha) as [I S]. destruct (data_from_struct_markers _ _ _ _ _ _ _ _ Hd) as [A [B F]].
+  rewrite A, B. repeat split; assumption.
+Qed.
+
+(* the item-level incomparable marker of an accepted enum, as written *)
+Theorem accepted_enum_item_marker c r i rvs disc id inc vs :
+  from_input c r = Ok i -> ri_kind r = KEnum rvs -> in_item i = IEnum disc id inc vs ->
+  inc = existsb (fun m => meta1_is m "incomparable") (singles (ri_attrs r)).
+Proof.
+  intros H Hk Hi. destruct (from_input_inv c r i H) as [ia [Ha [_ [_ K]]]]. rewrite Hk in K.
+  destruct K as [disc' [vs' [fd [fi [_ [_ [_ [_ [_ E]]]]]]]]]. rewrite Hi in E. inversion E; subst.
+  apply (item_attrs_declarative _ _ _ _ _ Ha).
+Qed.
